@@ -275,6 +275,50 @@ theorem c17_at_most_once_per_window (w : Nat) (evs : List Ev) (lb : Nat) (hmono 
 example : (run 10 [] [.req 0 ⟨2, [1]⟩ (some true), .req 5 ⟨2, [1]⟩ (some true), .tick 10, .req 10 ⟨2, [1]⟩ (some true),
     .tick 11, .req 11 ⟨2, [1]⟩ (some true)]).2 = [((2, [1]), 0), ((2, [1]), 11)] := by decide
 
+/-! ### scale: more than a thousand distinct pairs inside one window -/
+
+/-- `n` requests for `n` distinct transactions of chain 2 (32-byte ids), one per nanosecond from `t` on; the watcher
+always has room. -/
+def bulk (t : Nat) : Nat → List Ev
+  | 0 => []
+  | n + 1 => .req t ⟨2, be 32 t⟩ (some true) :: bulk (t + 1) n
+
+private theorem monotone_weaken {a b : Nat} {l : List Ev} (h : Monotone a l) (hb : b ≤ a) : Monotone b l := by
+  cases l with
+  | nil => trivial
+  | cons e es => exact ⟨Nat.le_trans hb h.1, h.2⟩
+
+private theorem monotone_bulk_append (n : Nat) : ∀ (t lb : Nat) (rest : List Ev), lb ≤ t → Monotone (t + n) rest →
+    Monotone lb (bulk t n ++ rest) := by
+  induction n with
+  | zero => intro t lb rest h hr; exact monotone_weaken hr (by omega)
+  | succ n ih =>
+    intro t lb rest h hr
+    exact ⟨h, ih (t + 1) t rest (by omega) (by rw [show t + 1 + n = t + (n + 1) by omega]; exact hr)⟩
+
+private theorem no_tick_in_bulk (n : Nat) : ∀ (t T : Nat) (rest : List Ev), Ev.tick T ∈ bulk t n ++ rest → Ev.tick T ∈ rest := by
+  induction n with
+  | zero => intro t T rest h; exact h
+  | succ n ih =>
+    intro t T rest h
+    rcases List.mem_cons.1 h with h | h
+    · cases h
+    · exact ih (t + 1) T rest h
+
+-- 1100 distinct (chain, transaction) pairs within 1.1 µs, then pair 5 again: the hypothesis of
+-- `c17_at_most_once_per_window` holds of this history …
+example : Monotone 0 (bulk 0 1100 ++ [.req 1100 ⟨2, be 32 5⟩ (some true)]) :=
+  monotone_bulk_append 1100 0 0 _ (Nat.le_refl _) ⟨Nat.le_refl _, trivial⟩
+
+-- … and it is one in which something is suppressed: pair 5 is remembered after the first six requests, and neither the
+-- 1094 distinct pairs that follow nor its own repeat forward it a second time
+example : ((2, be 32 5), 5) ∈ (run Whv.Gen.C17.windowNs [] (bulk 0 6)).1 ∧
+    ∀ f ∈ (run Whv.Gen.C17.windowNs (run Whv.Gen.C17.windowNs [] (bulk 0 6)).1
+            (bulk 6 1094 ++ [.req 1100 ⟨2, be 32 5⟩ (some true)])).2, f.1 ≠ (2, be 32 5) :=
+  have h : ((2, be 32 5), 5) ∈ (run Whv.Gen.C17.windowNs [] (bulk 0 6)).1 := by decide
+  ⟨h, (c17_suppressed_within_window _ _ _ _ 5 h (fun T hT => by
+    have := no_tick_in_bulk 1094 6 T _ hT
+    simp at this)).2⟩
 /-! ### … and again once the window has lapsed -/
 
 private theorem purge_removes {w T : Nat} {c : Cache} {k : Key} {t0 : Nat} (hn : KeysNodup c) (hm : (k, t0) ∈ c)
